@@ -213,6 +213,7 @@ class Flow:
     def __init__(self, T: "Tree"):
         self.T = T
         self.sinks: Set[str] = set()
+        self.fields: Set[str] = set()   # attribute / constructor-keyword names the value is stored under
         self.seen: Set[Tuple[str, int]] = set()
 
     def follow(self, fi: FileInfo, node: ast.AST, depth: int = 0) -> None:
@@ -242,6 +243,25 @@ class Flow:
             if fname in LOG_METHODS:
                 self.sinks.add("log")
                 return
+            # an argument of a function / method defined exactly once in the tree: the value is that parameter inside the callee
+            # (over-approximation: every definition of that name, up to four)
+            defs = self.T.func_defs.get(fname, [])
+            if 1 <= len(defs) <= 4 and node in p.args:
+                hit = False
+                for dfi, dfn in defs:
+                    params = [a.arg for a in [*dfn.args.posonlyargs, *dfn.args.args]]
+                    if params and params[0] in ("self", "cls") and isinstance(p.func, ast.Attribute):
+                        params = params[1:]
+                    i = p.args.index(node)
+                    if i < len(params):
+                        hit = True
+                        for m in ast.walk(dfn):
+                            if isinstance(m, ast.Name) and m.id == params[i] and isinstance(m.ctx, ast.Load):
+                                self.follow(dfi, m, d)
+                if hit:
+                    if len(defs) > 1:
+                        self.sinks.add("other:argument of " + fname + " (several definitions)")
+                    return
             self.sinks.add("other:argument of " + fname)
             return
         if isinstance(p, ast.keyword):
@@ -305,6 +325,7 @@ class Flow:
         self.sinks.add("other:" + type(p).__name__)
 
     def field(self, attr: str, depth: int) -> None:
+        self.fields.add(attr)
         for fi2 in self.T.files:
             for m in ast.walk(fi2.tree):
                 if isinstance(m, ast.Attribute) and m.attr == attr and isinstance(m.ctx, ast.Load):
@@ -424,6 +445,14 @@ class Facts:
         return ".none"
 
     def secret(self, n: ast.Call, q: str) -> str:
+        if q == "secrets.randbelow" and len(n.args) == 1:
+            k = _const_int(n.args[0])
+            par = self.T.parents_of(self.fi).get(id(n))
+            if k is not None and k > 0 and isinstance(par, ast.BinOp) and isinstance(par.op, ast.Add):
+                other = par.left if par.right is n else par.right
+                lo = _const_int(other)
+                if lo is not None and lo >= 0:
+                    return f".boundedSecret {lo} {lo + k - 1}"   # `lo + secrets.randbelow(k)`
         if q == "secrets.token_urlsafe" and len(n.args) == 1:
             v = _const_int(n.args[0])
             if v is not None and v >= 0:
@@ -433,7 +462,11 @@ class Facts:
     def reading(self, n: ast.Call) -> str:
         fl = Flow(self.T)
         fl.follow(self.fi, n)
-        return ".sinks [" + ", ".join(_lstr(x) for x in sorted(fl.sinks)) + "]"
+        if all(x in ("path", "show", "log") for x in fl.sinks):
+            return ".sinks [" + ", ".join(_lstr(x) for x in sorted(fl.sinks)) + "]"
+        # the value goes somewhere else: report the attribute / keyword names it is stored under (which of them are datetime fields
+        # of a model with a fixed-width serialiser is the table `datetimeFields`)
+        return ".storedIn [" + ", ".join(_lstr(x) for x in sorted(fl.fields)) + "]"
 
     def offline(self) -> str:
         return ".offlineModule" if self.fi.rel not in self.T.runtime_closure() else ".none"
@@ -1006,6 +1039,42 @@ def collect() -> List[Tuple[str, str, str, str, int]]:
     return [r[:5] for r in collect_with_facts()]
 
 
+def datetime_fields() -> List[Tuple[str, str, str, bool]]:
+    """(file, class, field, fixed-width serialiser?) for every annotated class field whose annotation mentions `datetime`.
+    Serialiser = a method decorated `@field_serializer(..., <field>, ...)` whose every `return` of a non-None value is
+    `<x>.isoformat(timespec='microseconds')`."""
+    out = []
+    for f in sorted(SRC.rglob("*.py")):
+        rel = str(f.relative_to(SRC))
+        tree = ast.parse(f.read_text())
+        for c in ast.walk(tree):
+            if not isinstance(c, ast.ClassDef):
+                continue
+            ok_fields: Set[str] = set()
+            for m in c.body:
+                if not isinstance(m, ast.FunctionDef):
+                    continue
+                for dec in m.decorator_list:
+                    if isinstance(dec, ast.Call) and ast.unparse(dec.func).split(".")[-1] == "field_serializer":
+                        names = [a.value for a in dec.args if isinstance(a, ast.Constant) and isinstance(a.value, str)]
+                        rets = [r.value for r in ast.walk(m) if isinstance(r, ast.Return) and r.value is not None]
+                        good = bool(rets)
+                        for r in rets:
+                            vals = [r.body, r.orelse] if isinstance(r, ast.IfExp) else [r]
+                            for v in vals:
+                                if isinstance(v, ast.Constant) and v.value is None:
+                                    continue
+                                txt = ast.unparse(v).replace('"', "'").replace(" ", "")
+                                if not txt.endswith(".isoformat(timespec='microseconds')"):
+                                    good = False
+                        if good:
+                            ok_fields.update(names)
+            for st in c.body:
+                if isinstance(st, ast.AnnAssign) and isinstance(st.target, ast.Name) and "datetime" in ast.unparse(st.annotation):
+                    out.append((rel, c.name, st.target.id, st.target.id in ok_fields))
+    return out
+
+
 def stats() -> Dict[str, int]:
     return dict(STATS)
 
@@ -1035,8 +1104,12 @@ def emit() -> str:
          "  | seedCall (fam : Fam) (arg : String) (atCall : Bool)\n"
          "  /-- `secrets.token_urlsafe(n)` with a constant `n` -/\n"
          "  | constSecret (nbytes : Nat)\n"
-         "  /-- every place the reading's value flows to (syntactic forward data-flow): path / show / log, or other:… -/\n"
+         "  /-- every place the reading's value flows to (syntactic forward data-flow): path / show / log -/\n"
          "  | sinks (l : List String)\n"
+         "  /-- the reading goes elsewhere: the attribute / constructor-keyword names it is stored under -/\n"
+         "  | storedIn (fields : List String)\n"
+         "  /-- `lo + secrets.randbelow(k)`: the value lies in lo..hi -/\n"
+         "  | boundedSecret (lo hi : Nat)\n"
          "  /-- the set display is the keyword argument `kw` of a call of `callee` -/\n"
          "  | kwarg (callee : String) (kw : String)\n"
          "  | singletonDisplay\n"
@@ -1059,6 +1132,10 @@ def emit() -> str:
          "def sites : List Site := [\n  " + ",\n  ".join(lean_site(r[:5]) for r in rows) + "]",
          "/-- one fact per site, same order -/",
          "def facts : List Fact := [\n  " + ",\n  ".join(r[5] for r in rows) + "]",
+         "/-- every class field whose annotation mentions `datetime`: (file, class, field, has a JSON serialiser returning\n"
+         "`isoformat(timespec='microseconds')`, i.e. a text of constant width) -/",
+         "def datetimeFields : List (String × String × String × Bool) := [\n  " + ",\n  ".join(
+             f"({_lstr(a)}, {_lstr(b)}, {_lstr(c)}, {_lb(d)})" for a, b, c, d in datetime_fields()) + "]",
          "end Primaite.Gen.Nondet"]
     return "\n".join(L) + "\n"
 
